@@ -75,9 +75,14 @@ def main() -> int:
     modname, arg = CHECKS[a.property]
     try:
         mod = importlib.import_module(modname)
-        if a.replay:
-            return generic_replay(mod, arg, a.tier, a.replay)
-        return mod.main(arg, a.tier)
+        from vlib import common
+        # backstop for work done outside the guarded pool jobs: the check ends (as a machinery failure, never as a
+        # verdict) if it runs far beyond anything it needs
+        budget = float(os.environ.get('VERIF_TOTAL_GUARD', '10800' if a.tier == 'quick' else '43200'))
+        with common.guard(budget):
+            if a.replay:
+                return generic_replay(mod, arg, a.tier, a.replay)
+            return mod.main(arg, a.tier)
     except SystemExit:
         raise
     except BaseException:  # noqa: BLE001
